@@ -224,8 +224,13 @@ func runFuzz(w *world, j *judge, cs childSpec) error {
 			mv := methodVars[r.Intn(5)]
 			sp2 := *sp
 			sp2.Method, sp2.Path, sp2.Target = mv.Method, t.Path, t.T
+			if r.Chance(1, 5) {
+				// a preflight header on a request that is not a preflight
+				sp2.ACRM = vlib.Pick(r, "GET", "HEAD", "POST", "DELETE", "OPTIONS", headerSafe(randPrintable(r, r.Range(1, 8))))
+				j.b.Count("fuzz_with_preflight_header", 1)
+			}
 			j.replay = func(s *reqSpec) any {
-				return tableReplay{Mode: "fuzz", CredTag: "fuzz", Path: s.Path, Method: s.Method, Origin: s.Origin, Via: "handler", Auth: s.Auth, Authz: s.Authz, Cookie: s.Cookie, Dev: w.model.Dev, Host: s.Host}
+				return tableReplay{Mode: "fuzz", CredTag: "fuzz", Path: s.Path, Method: s.Method, ACRM: s.ACRM, Origin: s.Origin, Via: "handler", Auth: s.Auth, Authz: s.Authz, Cookie: s.Cookie, Dev: w.model.Dev, Host: s.Host}
 			}
 			// (sessions issued here are never presented: fuzzed cookies derive from the fixed list)
 			o, e := j.run(&sp2)
